@@ -61,6 +61,16 @@ def replay(d):
     return compare(b, o, inp["t"]) is not None
 
 
+_PICK = []
+
+
+def _sweep_one(t):
+    try:
+        return t, P.rebalance(_PICK, confidence_threshold=t), None
+    except Exception as e:  # reported as a failure of that threshold, not a checker crash
+        return t, None, repr(e)
+
+
 def check(run):
     run.deductive(PC.MODULES)
     reads = threshold_reads()
@@ -83,8 +93,21 @@ def check(run):
     ts = sorted(t for t in ts if 0 <= t <= 1)
     fails, cases = [], 0
     base = {i: r for i, r in pick}
-    for t in ts:
-        rows = P.rebalance([i for i, _ in pick], confidence_threshold=t)
+    from checks.common import parallel_map
+    _PICK[:] = [i for i, _ in pick]
+    # thresholds are independent runs of the real pipeline: one forked worker each, within a wall-clock budget; the
+    # boundary thresholds (an observed confidence and its float neighbours) come first
+    order = [t for t in ts if t not in (0.0, 0.5, 1.0)] + [0.0, 0.5, 1.0]
+    res, skipped = parallel_map(_sweep_one, order, 240 if run.tier == "quick" else 2400, procs=12)
+    if skipped:
+        run.notes.append("threshold sweep: %d of %d thresholds not finished within the time budget" % (skipped, len(order)))
+    if len(res) < min(len(order), 6):
+        run.undecided("C13/bounded:threshold-sweep", "only %d thresholds finished within the budget" % len(res))
+    ts = sorted(t for t, _, _ in res)
+    for t, rows, err in sorted(res, key=lambda x: x[0]):
+        if err is not None:
+            fails.append(({"kind": "threshold", "reaction": _PICK[0], "t": t}, "rebalance raised %s at threshold %r" % (err, t)))
+            continue
         for (i, _), row in zip(pick, rows):
             cases += 1
             bad = compare(base[i], row, t)
